@@ -20,7 +20,7 @@ claim('C06',
       'bounded exhaustive schedule enumeration + deviation-bounded scripted-environment exploration of the real loop',
       'DESIGN.md#c06')
 
-claim('C12',
+claim('C12 A structured family reaches 6 (7) buses: every set partition of the buses realised as islands (path or star inside each block) x all slack patterns.',
       'All sub-multigraphs of K_n (n<=4 quick, <=5 thorough; plus a parallel line and a jumper, i.e. all 2^L on/off '
       'patterns) x all enable patterns of three slack generators are fed to the real System.connectivity and compared '
       'with union-find components; every single-island-plus-isolated pattern goes through the real power flow and is '
@@ -32,7 +32,7 @@ claim('C12',
       'exhaustive input-shape enumeration (all subgraphs x status patterns) against a union-find reference',
       'DESIGN.md#c12')
 
-claim('C19',
+claim('C19 Group and model find_idx by bus are enumerated for all query tuples of length <= 3 over buses (1, 2, 3, missing) x allow_all x allow_none on three groups whose models share buses.',
       'Every System.add history of depth <=3 (<=4) over two models of one group x an index alphabet with duplicates, '
       'numeric/string twins, auto-index look-alikes and NaN is executed on a real System; after each add and after '
       'setup the group/model registries and every lookup (idx2model, idx2uid, get, find_idx model/group, allow_none, '
@@ -43,7 +43,7 @@ claim('C19',
       'explicit-state exploration of add-histories and reference patterns against a dict-based registry model',
       'DESIGN.md#c19')
 
-claim('C20',
+claim('C20 Histories also set every field by plain attribute assignment before save_config; three value sets per field including signed integers and negative floats; an integer given as text must be an integer in effect.',
       'At the real option-merging seam (System._update_config_object + Config + routine constructors) every assignment '
       'of file value / option value in {absent, legal, illegal} to <=2 (<=3) fields of two sections x rc-file presence '
       '(none, all sections, only used sections, other sections) plus malformed strings is executed and compared with a '
@@ -97,7 +97,7 @@ claim('C08',
       'exhaustive enumeration of zero-T patterns x state permutations against a generalised-eigenvalue reference',
       'DESIGN.md#c08')
 
-claim('C16',
+claim('C16 The routine product includes ieee14 with an islanded load bus (island post-processing of residuals and matrices in both accumulation modes); every linsolve with a column right-hand side must leave the solution in that right-hand side.',
       'One Solver instance per back-end (klu, umfpack, spsolve): every sequence of <=3 (4) operations from {solve, linsolve '
       '(5 matrices: regular, same pattern new values, other pattern, other size, singular), linsolve with a matrix '
       'right-hand side, set factorize, set new_A, clear} is executed and every call the property names is checked with a '
@@ -171,7 +171,7 @@ claim('C02',
       'explicit-state exploration of the code-cache protocol',
       'DESIGN.md#c02')
 
-claim('C03',
+claim('C03 On the all-on systems the comparison is repeated after every continuous parameter read by a Jacobian function has been changed in place and the first device of every dynamic model switched off; islanded-bus rows take part in the comparison of the two accumulation modes.',
       'Symbolic level: every generated Jacobian element and iterative-init Jacobian of every model is compared on the '
       'lattice with a Richardson central difference of the independently evaluated equation string (never across a '
       'breakpoint), the matrix name must match row/column kinds, and every (equation, variable) pair absent from the '
@@ -233,7 +233,7 @@ claim('C04',
       'deviation-bounded exploration of forced step rejections on the real integrator with a per-step residual oracle',
       'DESIGN.md#c04')
 
-claim('C05',
+claim('C05 A further part attaches every model with each option of each of its Switcher (mode / flag) parameters, IEEEST with every MODE x remote bus and ST2CUT with every MODE x MODE2 x local / remote signal buses.',
       'Every stand-alone stock case (93 files, enumerated from disk) is loaded, solved and dynamically initialised; the '
       'reported verdict must equal the harness recomputation of max|f, g| from a fresh residual evaluation (truthfulness, '
       'unconditional); when the independent precondition holds (every limiter inside, single-slack energised network, online '
@@ -248,7 +248,7 @@ claim('C05',
       'exhaustive enumeration of stock cases and attachable models with a residual-recomputation oracle',
       'DESIGN.md#c05')
 
-claim('C14',
+claim('C14 All five views of the stored series (t, x, y, xy, txyz) must have the same number of rows and end with the final state after a resume, with the composite views looked at between segments.',
       'Reference = one uninterrupted run of a classical-machine system (fault + line trip), a static system (toggles + '
       'alteration) and kundur_full (line trip). Interruptions: every accepted-step boundary of the reference among the first '
       '12 steps, te - 1e-4 / te - 1e-5 / te -+ 1e-6 / te / te + 1e-4 for every event, off-grid times; all singles and all '
@@ -263,7 +263,7 @@ claim('C14',
       'exhaustive enumeration of interruption points (crash-point style) x continuation modes against the uninterrupted run',
       'DESIGN.md#c14')
 
-claim('C15',
+claim('C15 In every configuration the in-memory plotter is loaded and five variables (states, bus algebraics, an external algebraic) are queried through it: the columns and values must be the simulated ones for the stored addresses.',
       'A recorder around the step routine copies (t, x, y, f) after every accepted step. For every configuration of a '
       'lattice (default + all single deviations + pairs over save_every {1,2,3,0}, limit_store, max_store {2,5,900}, store_f, '
       'store_z, output files on/off, 9 Output selections incl. overlapping and invalid rows, single vs resumed run) on SMIB '
